@@ -238,6 +238,7 @@ def check(run):
     # ---- Engine B: exhaustive graphs
     n = 3 if run.tier == "quick" else 4
     jobs = []
+    jobs += [([], a) for a in ("Hopcroft-Karp", "Hungarian")]        # the graph without any vertex: the empty cover
     for nU in range(1, n + 1):
         for nV in range(0, n + 1):
             if nV == 0:
